@@ -15,6 +15,7 @@ from vlib import core, trace
 
 DRIVER = os.path.join(core.VERIF, "vlib", "drivers", "c12_driver.py")
 TRACE_CALLS = "openat,write,fsync,fdatasync,rename,renameat,renameat2,unlink,unlinkat,mkdir,mkdirat,rmdir,newfstatat,stat"
+READ_CALLS = "read,pread64,getdents64,lstat,statx,access,faccessat,faccessat2"     # read-side calls, on top of openat / newfstatat / stat
 TMP_PREFIX = ".Radicale.tmp-"
 
 
@@ -372,6 +373,68 @@ def project(events, folder, names, contents, start_mark=None, end_mark=None):
             s.pop("data", None)
             s["step"] = ("Write", p, code)
     return collapse_rmtree(steps), locks, reads
+
+
+def read_sites(events, folder, start_mark="req", end_mark="end"):
+    """The read-side system calls of the phase between the marks that touch the storage folder:
+    list of dict(name, ordinal, variant, rel, key).  variant: stat (by path) | fstat (by descriptor) | access |
+    open | opendir | read | getdents; ordinal counts the calls of that name in the whole process (strace when=N);
+    key = (variant, rel with temp names replaced): the call site."""
+    folder = os.path.realpath(folder)
+    counts, out = {}, []
+    active = False
+
+    def rel_of(p):
+        p = os.path.normpath(p)
+        if p == folder:
+            return ""
+        if p.startswith(folder + "/"):
+            return p[len(folder) + 1:]
+        return None
+
+    for e in events:
+        ordinal = counts.get(e.call, 0) + 1
+        counts[e.call] = ordinal
+        if e.call in ("stat", "newfstatat") and e.paths and e.paths[0].startswith(trace.MARK_PREFIX):
+            label = e.paths[0][len(trace.MARK_PREFIX):]
+            if label == start_mark:
+                active = True
+            elif label == end_mark:
+                active = False
+            continue
+        if not active:
+            continue
+        variant, p0 = None, None
+        if e.call == "openat":
+            fl = _flags(e.args)
+            if {"O_CREAT", "O_WRONLY", "O_RDWR"} & fl:
+                continue
+            variant = "opendir" if "O_DIRECTORY" in fl else "open"
+            p0 = e.resolved[0] if e.resolved else (e.paths[0] if e.paths else None)
+        elif e.call in ("newfstatat", "stat", "lstat", "statx"):
+            if e.resolved and e.resolved[0] and not re.search(r'\d+<[^>]*>,\s*""', e.args):
+                variant, p0 = "stat", e.resolved[0]
+            elif e.call in ("stat", "lstat") and e.paths:
+                variant, p0 = "stat", e.paths[0]
+            else:
+                m = re.match(r"(\d+)<([^>]*)>", e.args)
+                if m:
+                    variant, p0 = "fstat", m.group(2)
+        elif e.call in ("access", "faccessat", "faccessat2"):
+            variant = "access"
+            p0 = e.resolved[0] if e.resolved else (e.paths[0] if e.paths else None)
+        elif e.call in ("read", "pread64", "getdents64"):
+            m = re.match(r"(\d+)<([^>]*)>", e.args)
+            if m:
+                variant, p0 = ("getdents" if e.call == "getdents64" else "read"), m.group(2)
+        if variant is None or not p0:
+            continue
+        r = rel_of(p0)
+        if r is None or is_lock(r):
+            continue
+        norm = "/".join("TMP" if c.startswith(TMP_PREFIX) else c for c in r.split("/"))
+        out.append(dict(name=e.call, ordinal=ordinal, variant=variant, rel=r, key=(variant, norm)))
+    return out
 
 
 def collapse_rmtree(steps):
